@@ -21,7 +21,7 @@ PROP_FILE = 'Props/C03.v'
 THEOREMS = [
     'C03_done_not_refetched', 'C03_nothing_lost', 'C03_resume_terminates_final',
     'C03_union_complete_partial', 'C03_union_complete_refuted', 'C03_no_extra_partial', 'C03_resume_same_span',
-    'C03_start_urls_never_lost', 'C03_union_complete_one_worker',
+    'C03_start_urls_never_lost', 'C03_union_complete_one_worker', 'C03_child_batch_size_is_the_source',
 ]
 TRUSTED = c01.TRUSTED + [
     'SQLite (WAL, synchronous=NORMAL) commits are atomic and survive a process kill (os._exit); exercised by the kill runs, '
@@ -92,6 +92,9 @@ def fixed_cases():
     starts = [('h1', '/')] * 998 + [('h1', '/k/'), ('h1', '/')] + [('h1', '/t2'), ('h1', '/'), ('h1', '/k2/')]
     spell = [es.canon(h, p) + ('#f%d' % i if p == '/' else '') for i, (h, p) in enumerate(starts)]
     out.append(('input-batches', {'meta': {'pages': pages}, 'opts': OPTS(), 'starts': starts, 'start_spellings': spell}))
+    # S5: a page with more than 1000 admitted links: the visit commits its children in two batches (one in the middle of the
+    # scrape), the kill points include the instants between them and before the check-in
+    out.append(('child-batches', c01.case_many_links()))
     return out
 
 
@@ -119,7 +122,8 @@ def quick_selection(plans, si):
     if si == 0:
         return at_c + at_r
     # ... and every commit of the start-up (release, input batches) of every site
-    return at_c[:4] + [p for p in at_c[si % 2::2] if p not in at_c[:4]] + (af_r if si % 2 else at_r)[::2]
+    head = at_c[:8]
+    return head + [p for p in at_c[si % 2::2] if p not in head] + (af_r if si % 2 else at_r)[::2]
 
 
 def property_on_impl(case, base, result):
@@ -230,6 +234,11 @@ def coq_check(items, per=30):
                             'first_event_not_possible_in_model': int(v),
                             'note': 'killed run + rerun is not an execution of the model'})
     return dis, len(terms)
+
+
+def pregen(ctx):
+    from harness.translate import consts
+    return consts.generate(ctx.repo)
 
 
 def correspondence(ctx):
@@ -358,6 +367,7 @@ LEVEL_NOTE = (
     'whose kill points extend into the link-conversion stage that follows the crawl (the conversion stage itself is not in the model: only '
     'that it requests nothing and leaves the URL rows alone is observed); one has 1003 input lines, so that the start-up commits two input '
     'batches and kills fall between them (LAddBatch in the model). '
-    'Not modelled: robots.txt, cookies, FTP, WARC/file output of the interrupted item, the >= 1000-children mid-scrape flush.')
+    'One listed site has a page with 1003 admitted links, so that the visit commits its children in two batches (flush in the model). '
+    'Not modelled: robots.txt, cookies, FTP, WARC/file output of the interrupted item.')
 TECHNIQUE = ('Coq invariants over an LTS with a crash step (all crash points, all interleavings); vm_compute trace replay of '
              'exhaustively enumerated kill/rerun pairs of the real application')
